@@ -236,6 +236,7 @@ class Globals(object):
 
     def __init__(self, L):
         self.items = []
+        self.holders = []       # (name, class or function object) whose own attributes are state
         seen = set()
         for mname, mod in sorted(L.items()):
             if mod is None:
@@ -246,6 +247,16 @@ class Globals(object):
                 key = (mname, n)
                 self.items.append((key, mod, n, id(v) in seen))
                 seen.add(id(v))
+            # hidden module-level state: class-level data attributes and attributes of function objects
+            for n, v in sorted(vars(mod).items()):
+                if inspect.isclass(v) and getattr(v, '__module__', None) == mod.__name__:
+                    self.holders.append(('%s.%s' % (mname, n), v))
+                    for mn, mv in sorted(vars(v).items()):
+                        fn = getattr(mv, '__func__', mv)
+                        if inspect.isfunction(fn):
+                            self.holders.append(('%s.%s.%s' % (mname, n, mn), fn))
+                elif inspect.isfunction(v) and getattr(v, '__module__', None) == mod.__name__:
+                    self.holders.append(('%s.%s' % (mname, n), v))
         self.base = self.snap()
 
     def digest(self, v):
@@ -259,10 +270,18 @@ class Globals(object):
         for key, mod, n, dup in self.items:
             v = getattr(mod, n, None)
             out[key] = (id(v), self.digest(v) if not dup else None)
+        for name, h in self.holders:
+            if inspect.isclass(h):
+                st = {k: v for k, v in vars(h).items()
+                      if not (k.startswith('__') or inspect.isroutine(getattr(v, '__func__', v)) or isinstance(v, property))}
+            else:
+                st = dict(vars(h))
+            if st:
+                out[(name, '<attributes>')] = (0, self.digest(canon(st)))
         return out
 
     def changed(self, before, after):
-        return ['%s.%s' % k for k in before if before[k] != after.get(k)]
+        return ['%s.%s' % k for k in set(before) | set(after) if before.get(k) != after.get(k)]
 
 
 # ----------------------------------------------------------------------------- calling
@@ -509,6 +528,8 @@ def receiver_spec(rng, cls):
     if cls == 'Angle':
         return g_angle(rng)
     if cls == 'Epoch':
+        if rng.random() < 0.25:
+            return g_epoch(rng, -500, 1582)       # Julian-calendar dates
         return g_epoch(rng)
     if cls == 'Interpolation':
         return interp_spec(rng)
@@ -628,7 +649,8 @@ def special_args(rng, fq):
     if fq == 'CurveFitting.general_fitting':
         return ['<recv>', {'callable': 'x2'}, {'callable': 'x'}, {'callable': 'one'}]
     if fq == 'Epoch.get_doy':
-        return [rng.randint(1600, 2200), rng.randint(1, 12), rng.uniform(1, 28)]
+        y = rng.choice([rng.randint(1600, 2200), rng.randint(-500, 1582), 1500, 1000, 4, 1582, 1583, 2000, 1900])
+        return [y, rng.randint(1, 12), rng.uniform(1, 28)]
     if fq == 'Epoch.doy2date':
         return [rng.randint(1600, 2200), rng.uniform(1, 365)]
     if fq == 'Epoch.tt2ut':
@@ -690,6 +712,59 @@ def gen_args(rng, f, sig_info, full=False):
             break
         out.append(v)
     return out, 'typed'
+
+
+def near_variants(specs):
+    """[(position, nearby spec, how)]: an Epoch a few seconds away, a float / Angle a few ulp (and 1e-9) away"""
+    out = []
+    for i, s in enumerate(specs):
+        if isinstance(s, dict) and 'Epoch' in s:
+            out.append((i, {'Epoch': s['Epoch'] + 5.0 / 86400.0}, 'epoch+5s'))
+            out.append((i, {'Epoch': s['Epoch'] - 1e-7}, 'epoch-9ms'))
+        elif isinstance(s, dict) and 'Angle' in s:
+            out.append((i, {'Angle': s['Angle'] * (1.0 + 4e-16) + 5e-324}, 'angle+ulp'))
+            out.append((i, {'Angle': s['Angle'] + 1e-9}, 'angle+1e-9'))
+        elif isinstance(s, float):
+            out.append((i, s * (1.0 + 4e-16) + 5e-324, 'float+ulp'))
+        elif isinstance(s, int) and not isinstance(s, bool):
+            out.append((i, s + 1, 'int+1'))
+    # one variant of every position first, then the second variants
+    firsts, seen = [], set()
+    for v in out:
+        if v[0] not in seen:
+            firsts.append(v)
+            seen.add(v[0])
+    return firsts + [v for v in out if v not in firsts]
+
+
+def far_variant(specs):
+    """the same call far away: Epochs 1000.3 days later, Angles 37 degrees on, floats scaled"""
+    out = []
+    for s in specs:
+        if isinstance(s, dict) and 'Epoch' in s:
+            out.append({'Epoch': s['Epoch'] + 1000.3})
+        elif isinstance(s, dict) and 'Angle' in s:
+            out.append({'Angle': (s['Angle'] + 37.0) if abs(s['Angle'] + 37.0) < 89.0 or abs(s['Angle']) > 89.0 else s['Angle'] * 0.5})
+        elif isinstance(s, float):
+            out.append(s * 1.25 + 0.01)
+        else:
+            out.append(s)
+    return out
+
+
+# keyword forms of views that take **kwargs (documented keywords)
+VIEW_KW = {'Epoch.get_date': [{'utc': True}, {'leap_seconds': 10.0}, {'local': False}],
+           'Epoch.get_full_date': [{'utc': True}, {'leap_seconds': 10.0}],
+           'Epoch.tt2utc': [{}],
+           'Epoch.year': [{}], 'Epoch.doy': [{}], 'Epoch.leap': [{}], 'Epoch.julian': [{}]}
+
+REUSE_SPECS = {
+    'Angle': [{'Angle': -87.25}, {'Angle': 311.7}, {'Angle': -1e-9}, {'Angle': 0.0}],
+    'Epoch': [{'Epoch': 2457753.0}, {'Epoch': 2451545.0}, {'Epoch': 2299160.5}, {'Epoch': 2441683.25}],
+    'Interpolation': [{'Interpolation': [[12.0, 16.0, 20.0], [1.3814294, 1.3812213, 1.3812453]]},
+                      {'Interpolation': [[-2.0, -1.0, 0.0, 1.0, 2.0, 3.0], [-9.0, -2.0, -1.0, 0.0, 7.0, 26.0]]}],
+    'CurveFitting': [{'CurveFitting': [[1.0, 2.0, 3.0, 4.0, 5.0, 6.0], [2.0, 4.5, 6.1, 8.3, 9.9, 12.2]]}],
+}
 
 
 BAD = [('None', None), ('str', 'x'), ('complex', {'complex': [1.0, 2.0]}), ('list', [1.0])]
@@ -865,6 +940,121 @@ class Checker(object):
         except Exception:  # noqa: totality is judged elsewhere
             return
         self.pred('repeat_equal', a == b, inp, {'first': str(a)[:150], 'second': str(b)[:150]}, 'history')
+
+    # ---- near-argument histories: f(a') just before f(a) must not change f(a)
+    def outcome(self, fn, args):
+        try:
+            return ('ok', canon(invoke(fn, args)))
+        except Exception as e:   # noqa
+            return ('exc', type(e).__name__)
+
+    def near_history(self, f, specs, far):
+        """Baseline: f(a) evaluated right after an unrelated far call.  Then, for a few a' close to a (an Epoch a
+        few seconds away, a float / Angle a few ulp away), f(a') followed by f(a) must give the baseline; and
+        so must f on the *same* argument objects re-valued through set() from a' back to a."""
+        L = self.L
+        rf = resolve(f, L)
+        if rf is None or f['kind'] == 'mutator':
+            return
+        far_specs = far_variant(specs)
+
+        def go_far():
+            # an unrelated call, then the same function far away from a (evicts one-entry caches)
+            if far is not None:
+                rg = resolve(far[0], L)
+                if rg is not None:
+                    self.outcome(rg[0], decode(far[1], L))
+            self.outcome(rf[0], decode(far_specs, L))
+        go_far()
+        base = self.outcome(rf[0], decode(specs, L))
+        if base[0] != 'ok':
+            return
+        for (i, near, how) in near_variants(specs)[:4]:
+            sp2 = specs[:i] + [near] + specs[i + 1:]
+            inp = {'kind': 'near', 'fn': f['qual'], 'args': specs, 'near_args': sp2, 'pos': i, 'sig': 'near:' + how}
+            go_far()
+            self.outcome(rf[0], decode(sp2, L))
+            again = self.outcome(rf[0], decode(specs, L))
+            self.pred('near_history_equal', again == base, inp,
+                      {'after_far_call': str(base)[:140], 'after_near_call': str(again)[:140]}, 'history/near')
+            # the same objects, re-valued in place through their documented mutator
+            key = next(iter(specs[i])) if isinstance(specs[i], dict) else None
+            if key in ('Angle', 'Epoch'):
+                go_far()
+                objs = decode(specs, L)
+                try:
+                    objs[i].set(near[key])
+                    self.outcome(rf[0], objs)
+                    objs[i].set(specs[i][key])
+                except Exception:   # noqa
+                    continue
+                again = self.outcome(rf[0], objs)
+                self.pred('near_history_equal', again == base, dict(inp, sig='revalued:' + how),
+                          {'fresh_objects': str(base)[:140], 'revalued_objects': str(again)[:140]}, 'history/revalued')
+
+    # ---- object reuse: view, (mutator,) view on one object  ==  view on a fresh object in the same state
+    def rebuild(self, o):
+        """A fresh object with the public state of o, built through the constructor."""
+        L = self.L
+        n = type(o).__name__
+        if n == 'Angle':
+            r = L['Angle'].Angle(o())
+            r.set_tolerance(o.get_tolerance())
+            return r
+        if n == 'Epoch':
+            return L['Epoch'].Epoch(o.jde())
+        if n == 'Interpolation':
+            r = L['Interpolation'].Interpolation(list(o._x), list(o._y))
+            r.set_tolerance(o.get_tolerance())
+            return r
+        if n == 'CurveFitting':
+            return L['CurveFitting'].CurveFitting(list(o._x), list(o._y))
+        return None
+
+    def views_of(self, cls, rng, nvar):
+        """(function, argument specs without the receiver) for the side-effect-free methods of a class"""
+        out = []
+        for f in self.fns:
+            if f['cls'] != cls or f['kind'] != 'pure' or f['name'] in ('__init__', '__hash__'):
+                continue
+            si = self.sig.get(f['qual'])
+            if si is None or not si[3]:
+                continue
+            for _ in range(nvar):
+                sp, _tag = gen_args(rng, f, si[:5])
+                out.append((f, sp[1:]))
+            for kw in VIEW_KW.get(f['qual'], []):
+                out.append((f, [{'kw': kw}]))
+        return out
+
+    def reuse_step(self, obj, f, argspecs):
+        pos, kw = split_kw(decode(argspecs, self.L))
+        try:
+            return ('ok', canon(getattr(obj, f['name'])(*pos, **kw)))
+        except Exception as e:   # noqa
+            return ('exc', type(e).__name__)
+
+    def object_reuse(self, cls, spec, first, mut, second):
+        """first = (view, args) | None, mut = (mutator, args) | None, second = (view, args)"""
+        L = self.L
+        o = decode(spec, L)
+        steps = []
+        for st in (first, mut):
+            if st is not None:
+                self.reuse_step(o, st[0], st[1])
+                steps.append([st[0]['qual'], st[1]])
+        same = self.reuse_step(o, second[0], second[1])
+        try:
+            fresh_obj = self.rebuild(o)
+        except Exception:   # noqa: the mutator left an empty / unusable object: nothing to compare
+            return
+        if fresh_obj is None:
+            return
+        fresh = self.reuse_step(fresh_obj, second[0], second[1])
+        inp = {'kind': 'reuse', 'fn': second[0]['qual'], 'cls': cls, 'args': [spec], 'steps': steps,
+               'view_args': second[1], 'sig': 'reuse:' + ('+'.join(s[0].split('.')[-1] for s in steps) or 'none')}
+        self.pred('object_reuse_equal', same == fresh, inp,
+                  {'reused_object': str(same)[:140], 'fresh_object': str(fresh)[:140]}, 'history/reuse')
 
     # ---- copy constructors
     def copy_check(self, cls, spec, rng):
@@ -1048,6 +1238,18 @@ def generate(ctx, shard=0, nshards=1):
         for cls, mk in (('Angle', g_angle), ('Epoch', g_epoch), ('Interpolation', interp_spec), ('CurveFitting', curve_spec)):
             for _ in range(ctx.n(4, 30)):
                 ck.copy_check(cls, mk(rng), rng)
+        # the translator itself on the Python shapes of hidden module-level state (class-level dicts, function
+        # attributes, `global`, mutating methods of module containers, setattr, mutable defaults)
+        try:
+            sys.path.insert(0, os.path.join(ROOT, 'tools'))
+            import py2effects
+            for (q, want, got) in py2effects.selftest():
+                ck.pred('translator_selftest', want == got, {'kind': 'selftest', 'fn': q, 'args': [], 'sig': 'selftest'},
+                        'expected %s, the analysis %s it' % ('accept' if want else 'reject', 'accepts' if got else 'rejects'),
+                        'skeleton')
+        except Exception as e:   # noqa
+            ck.pred('translator_selftest', False, {'kind': 'selftest', 'fn': 'py2effects.selftest', 'args': [], 'sig': 'selftest'},
+                    repr(e), 'skeleton')
         ctx.sample({'call': 'l=[1.0]; Angle(l, radians=True); l', 'expected': [1.0]})
         ctx.sample({'call': 'a=Angle(40); b=a; a+=Angle(1); b()', 'expected': 40.0})
     # two-call histories: f(a), g(b), f(a) over ordered pairs from a random subset
@@ -1063,6 +1265,34 @@ def generate(ctx, shard=0, nshards=1):
             continue
         for (g, gs) in rng.sample(allpool, min(len(allpool), ctx.n(2, 6))):
             ck.history(f, specs, g, gs)
+    # near-argument histories (one argument tuple per function in quick, two in thorough)
+    seen = set()
+    for (f, specs) in pool:
+        if f['qual'] in seen and ctx.tier != 'thorough':
+            continue
+        seen.add(f['qual'])
+        ck.near_history(f, specs, rng.choice(allpool) if allpool else None)
+    # object reuse: every (mutator, view) and a sample of (view, view) orders on one object vs a fresh one
+    r3 = core.random.Random(ctx.seed * 11 + 5)
+    k = 0
+    for cls in ('Angle', 'Epoch', 'Interpolation', 'CurveFitting'):
+        views = ck.views_of(cls, r3, 1 if ctx.tier != 'thorough' else 2)
+        muts = [m for m in fns if m['cls'] == cls and m['kind'] == 'mutator' and m['name'] != '__init__']
+        mut_calls = []
+        for m in muts:
+            for _ in range(ctx.n(3, 6)):
+                mut_calls.append((m, gen_args(r3, m, ck.sig[m['qual']][:5])[0][1:]))
+        specs_c = REUSE_SPECS[cls]
+        for v in views:
+            for mc in mut_calls:
+                k += 1
+                if k % nshards == shard:
+                    ck.object_reuse(cls, specs_c[k % len(specs_c)], v, mc, v)
+        pairs = [(a, b) for a in views for b in views]
+        for (a, b) in r3.sample(pairs, min(len(pairs), ctx.n(900, 6000))):
+            k += 1
+            if k % nshards == shard:
+                ck.object_reuse(cls, specs_c[k % len(specs_c)], a, None, b)
     ctx.notes.append('shard %d: %d public callables' % (shard, len(mine)))
 
 
@@ -1093,6 +1323,15 @@ def replay(case):
         return (bad, {'outcome': out})
     elif kind == 'oor':
         ck.out_of_range(f, inp['args'], 'replay')
+    elif kind == 'near':
+        ck.near_history(f, inp['args'], None)
+    elif kind == 'selftest':
+        pass
+    elif kind == 'reuse':
+        st = [(byq[q], a) for (q, a) in inp['steps']]
+        first = st[0] if st and byq[inp['steps'][0][0]]['kind'] == 'pure' else None
+        mut = next((s for s in st if s[0]['kind'] == 'mutator'), None)
+        ck.object_reuse(inp['cls'], inp['args'][0], first, mut, (f, inp['view_args']))
     elif kind == 'history':
         ck.history(f, inp['args'], byq[inp['between']], inp['between_args'])
     elif kind == 'repeat':
